@@ -220,6 +220,14 @@ func (h *handler) serve(clientCtx context.Context) error {
 		}
 	}()
 
+	// One context for all the handlers of this connection: cancelled as soon
+	// as the connection is known to have ended and, at the latest, before
+	// serve returns - for all of them at once, whatever each of them then does.
+	clientCtx, connCancel := context.WithCancel(clientCtx)
+	defer connCancel()
+	stopConn := context.AfterFunc(h.ctx, connCancel)
+	defer stopConn()
+
 	unaryRpcCtx, unaryRpcCtxCancel := context.WithCancel(ctx)
 	defer unaryRpcCtxCancel()
 
